@@ -1233,10 +1233,28 @@ class Executor:
             raise Unsupported("bytes." + name)
         if isinstance(obj, SDatetime) and name == "replace":
             return SDatetime(obj.year, obj.month, obj.day, obj.hour, obj.minute, obj.second, tz=kwargs.get("tzinfo", obj.tz))
-        if isinstance(obj, STime) and name == "strftime":
-            if args == ["%H%M%S"]:
-                return Rope([Dec(obj.hour, 2), Dec(obj.minute, 2), Dec(obj.second, 2)])
-            raise Unsupported("strftime format")
+        if isinstance(obj, (STime, SDate)) and name == "strftime":
+            # model of C strftime for the numeric directives; %Y is padded to 4 digits or not at all
+            # depending on the platform's libc - measured here on the running interpreter
+            import datetime as _dt
+            ywidth = len(_dt.date(5, 1, 1).strftime("%Y"))
+            fmt = args[0]
+            if not isinstance(fmt, str):
+                raise Unsupported("strftime format")
+            atoms = []
+            i = 0
+            while i < len(fmt):
+                if fmt[i] == "%" and i + 1 < len(fmt):
+                    d = fmt[i + 1]
+                    field = {"Y": "year", "m": "month", "d": "day", "H": "hour", "M": "minute", "S": "second"}.get(d)
+                    if field is None or not hasattr(obj, field):
+                        raise Unsupported("strftime directive %" + d)
+                    atoms.append(Dec(getattr(obj, field), ywidth if d == "Y" else 2))
+                    i += 2
+                else:
+                    atoms.append(fmt[i])
+                    i += 1
+            return Rope(atoms)
         hook = self.method_hooks.get(name)
         if hook:
             return hook(self, obj, args, kwargs)
